@@ -14,6 +14,11 @@ property statement and docsite/site/content/reference/typechecking.md:
                function result, select, module, imported file) behaves like the constraint written inline (family named_reach);
   chained      `let x :: C1 = V; let y :: C2 = <use of x>;` builds iff V conforms to C1 and the value the use evaluates to conforms
                to C2 - what C1 says about other values is irrelevant (family chained_lets).
+  recursive    a value holding SEVERAL sub-values of one recursive named exemplar constraint conforms iff the exemplar rule, applied
+               recursively with the name replaced by its definition, admits it: every node is judged on its own fields and field
+               types, in whatever order / place the nodes appear (family recursive_siblings).
+  per level    the tuple rule holds for every tuple on its own: on each nesting level independently the value may have fewer, the same
+               or more fields than the exemplar (family nested_tuple_levels).
 
 The build must succeed iff the oracle admits the value; a rejected binding must end in a diagnostic (status ERR with a
 message, never PANIC / CRASH).  Bounded: exactly the enumerated pairs; never counted as proved.
@@ -1274,11 +1279,10 @@ def standin_nested_tuple_levels(tier, seed):
                 for ln in LINKS[1:4]:
                     one([l0, l1], [ln])
         nrand = 80
-    if True:
-        for l0 in rel5:
-            for l1 in rel5:
-                for l2 in rel5:
-                    one([l0, l1, l2], ['tuple', 'tuple'])
+    for l0 in rel5:                       # both tiers: containment in every combination of directions over three levels
+        for l1 in rel5:
+            for l2 in rel5:
+                one([l0, l1, l2], ['tuple', 'tuple'])
     for _ in range(nrand):
         d = rnd.choice([2, 3, 3])
         pool = lv_q if rnd.random() < 0.5 else lv_all
